@@ -109,6 +109,7 @@ pub(crate) fn types_equal(a: u32, b: u32, types: &PortableRegistry) -> bool {
             &GenericsList::empty(),
             &mut HashSet::new(),
             types,
+            true,
         );
         crate::verif_hooks::emit("te:query", a, b, verdict as u32);
     }
@@ -122,6 +123,7 @@ pub(crate) fn types_equal(a: u32, b: u32, types: &PortableRegistry) -> bool {
         &GenericsList::empty(),
         &mut b_visited,
         types,
+        true,
     )
 }
 
@@ -134,6 +136,7 @@ fn types_equal_inner(
     b_parent_params: &GenericsList,
     b_visited: &mut HashSet<u32>,
     types: &PortableRegistry,
+    is_root: bool,
 ) -> bool {
     // IDs are the same; types must be identical!
     if a == b {
@@ -170,7 +173,7 @@ fn types_equal_inner(
     // Capture a few variables to avoid some repetition later when we recurse.
     let mut types_equal_recurse =
         |a: u32, a_params: &GenericsList, b: u32, b_params: &GenericsList| -> bool {
-            types_equal_inner(a, a_params, a_visited, b, b_params, b_visited, types)
+            types_equal_inner(a, a_params, a_visited, b, b_params, b_visited, types, false)
         };
 
     // We'll lazily extend our type params only if the shapes match.
@@ -194,6 +197,28 @@ fn types_equal_inner(
     // Paths differ; types won't be equal then!
     if a_ty.path.segments != b_ty.path.segments {
         return false;
+    }
+
+    // The generic arguments of a nested type must line up too (against the generics of the
+    // enclosing types). Otherwise a difference hidden in e.g. `Option<A>` vs `Option<B>` would
+    // be explained away by `Option`'s own type parameter below. The two root types are exempt:
+    // their arguments are the generics we are unifying over.
+    if !is_root {
+        let nested_generics_equal = a_ty.type_params.len() == b_ty.type_params.len()
+            && a_ty
+                .type_params
+                .iter()
+                .zip(b_ty.type_params.iter())
+                .all(|(a, b)| match (a.ty, b.ty) {
+                    (Some(a), Some(b)) => {
+                        types_equal_recurse(a.id, a_parent_params, b.id, b_parent_params)
+                    }
+                    (None, None) => true,
+                    _ => false,
+                });
+        if !nested_generics_equal {
+            return false;
+        }
     }
 
     #[rustfmt::skip]
